@@ -73,3 +73,13 @@ Theorem C13_retransmission_identical_step :
           (exists x : txn, lookup j (T c) = Some x /\ pkt x' = pkt x) \/ In (Out j true (pkt x')) evs).
 Proof. exact AgentMech.retransmission_identical_step. Qed.
 Print Assumptions C13_retransmission_identical_step.
+
+(* ---- the property in exactly the form in which the implementation is judged: the spec monitor of this property
+   (Agent/Monitors.v, from the property text; it runs on every observed call of the implementation) accepts EVERY step of
+   EVERY well-formed history of the model (fresh transaction ids, monotone instants, positive RTO; application attribute lists as the harness generates them: no integrity / fingerprint types, no pre-corrupted FINGERPRINT), for every configuration
+   and credential mechanism (Proofs/AgentMeets.v: obs_of, run_mon; Proofs/AgentMeets2.v) *)
+From Rustun Require Import Agent.Rto Agent.Model Agent.Monitors Proofs.AgentMeets Proofs.AgentMeets2.
+Theorem C13_model_meets_monitor : forall (cf:config) (m:mech) (mc:mcfg) (cc:ccfg) (ops:list op),
+  consistent mc cf -> consistent_cc cc cf m -> well_formed_history ops -> wf_apps ops -> verdicts_true 13 (run_mon mc cc (init cf m) (mall0 cc) ops).
+Proof. exact AgentMeets2.model_meets_C13. Qed.
+Print Assumptions C13_model_meets_monitor.
